@@ -23,6 +23,13 @@ CLAIMS["C15"] = (
     "DESIGN.md §2 C15",
 )
 
+CLAIMS["C17"] = (
+    "loop-shape recognisers, stage-provenance abstract interpretation (term domain), order-taint of completion-ordered containers, first-match-returns",
+    "Order/typestate analysis of every pipeline model: sequential containers must be the exact threaded loop over the declared list with arguments forwarded; DeepJSCC/channel-code stage lists are checked by parameter identity; for the multiple-access, Wyner-Ziv and feedback models an abstract interpreter over stage terms computes through which components the result passed and compares it with the declared composition (each stage once, in order, superposition before one constraint and one channel use, exactly max_iterations rounds); in the parallel model a container filled in as_completed() order may reach the aggregator/return only after being rebuilt in declared order; the branching model returns inside the first true condition in registration order. Schedules and inputs do not occur in the argument, so it covers all of them; user callables are not analysed.",
+    "Trusted: provenance.py's treatment of calls (stage attributes/lists named in props/c17.py), dict insertion order and list order semantics of CPython, concurrent.futures.as_completed yielding in completion order. Unknown loop shapes -> exit 2.",
+    "DESIGN.md §2 C17",
+)
+
 NOT_APPLICABLE = {
     "C09": "conjunction at run time of C02/C05/C06/C10/C11/C15 over component pairings and adversarial channels; its structural preconditions (stage order, LLR polarity, label agreement, block framing) are decided under C17, C15, C05, C20 - no additional clause is visible in the shape of the code (DESIGN.md §2 C09)",
 }
